@@ -128,25 +128,48 @@ func (e *Env) globalTables() func(name string) (pred.Val, bool) {
 		if p == nil || g == nil || !e.C.WrittenOnlyByInit(g) {
 			return nil, false
 		}
-		switch g.Type().Underlying().(*types.Pointer).Elem().Underlying().(type) {
-		case *types.Slice, *types.Array:
+		var elemT types.Type
+		switch t := g.Type().Underlying().(*types.Pointer).Elem().Underlying().(type) {
+		case *types.Slice:
+			elemT = t.Elem()
+		case *types.Array:
+			elemT = t.Elem()
 		default:
 			return nil, false
 		}
-		t, err := tab.Literal(p, vn)
-		if err != nil {
-			return nil, false
-		}
-		vals, err := t.SliceValues()
-		if err != nil {
-			return nil, false
-		}
-		cells := make([]*pred.Cell, len(vals))
-		for k, cv := range vals {
-			if cv == nil {
+		var cells []*pred.Cell
+		if st, isStruct := elemT.Underlying().(*types.Struct); isStruct {
+			// rows of a table of structs of constants
+			rows, _, err := tab.StructRows(p, vn)
+			if err != nil {
 				return nil, false
 			}
-			cells[k] = &pred.Cell{V: pred.Const{V: cv}, Name: name}
+			for _, row := range rows {
+				sv := &pred.StructV{T: st, Named: elemT, Fields: make([]pred.Val, st.NumFields())}
+				for fi := 0; fi < st.NumFields(); fi++ {
+					cv, ok := row[st.Field(fi).Name()]
+					if !ok || cv == nil {
+						return nil, false
+					}
+					sv.Fields[fi] = pred.Const{V: cv}
+				}
+				cells = append(cells, &pred.Cell{V: sv, Name: name})
+			}
+		} else {
+			t, err := tab.Literal(p, vn)
+			if err != nil {
+				return nil, false
+			}
+			vals, err := t.SliceValues()
+			if err != nil {
+				return nil, false
+			}
+			for _, cv := range vals {
+				if cv == nil {
+					return nil, false
+				}
+				cells = append(cells, &pred.Cell{V: pred.Const{V: cv}, Name: name})
+			}
 		}
 		var out pred.Val
 		if _, isArr := g.Type().Underlying().(*types.Pointer).Elem().Underlying().(*types.Array); isArr {
